@@ -41,7 +41,7 @@ class PotsMonitor:
             ctx.violation(note[0], f'{note}', sig=(self.prop, note[0]))
         if [bool(x) for x in st.statuses] != live:
             ctx.violation('live-set', f'engine statuses {st.statuses} vs log {live}', sig=(self.prop, 'live-set'))
-        tn = ctx.cfg['hand_types'] if ctx.cfg['game'] == 'custom' else None
+        tn = ctx.cfg['hand_types'] if ctx.cfg['game'] == 'custom' else [t.__name__ for t in st.hand_types]
         nb = st.board_count
         boards = [[repr(c) for c in st.get_board_cards(b)] for b in range(nb)]
         hands = []
@@ -164,13 +164,36 @@ def jobs(tier, seed):
         for plan in plans[::1 if (th or n == 2) else 3]:
             out.append(_j(f'2street-{n}p-2b-hilo-wide-deck',
                           C.custom(stacks, TWO, deck=WIDE, hand_types=('HighCardAny', 'JQLow'), antes=1, boards=2, plan=plan)))
+    # eight-handed stud checked down: the deck cannot supply eight seventh-street cards, the street is dealt as one community
+    # card, and the pots go to the best hands made of seven own cards... plus that card (real hand types, independent evaluator)
+    std = [r + u for r in '23456789TJQKA' for u in 'cdhs']
+    for game in ('FixedLimitSevenCardStud', 'FixedLimitSevenCardStudHighLowSplitEightOrBetter', 'FixedLimitRazz'):
+        for rot in range(6 if not th else 13):
+            k = (rot * 7) % 52
+            plan = std[k:] + std[:k]
+            if rot % 2:
+                plan = plan[::-1]
+            out.append(_j('stud-8-handed-community-card', C.stud((20,) * 8, game=game, plan=plan), opts={'fold': False, 'raises': 'none'},
+                          dev_bound=0, real=True))
     for j in out:
         j.setdefault('state_cap', 200000)
         j.setdefault('time_cap', 600)
     return out
 
 
+def real_strength(cards, tname):
+    """strength of the best hand of a real (52-card) hand type among the given cards, by the independent evaluator"""
+    from ..refs import handeval as H
+    cs = [c for c in cards if c and c != '??']
+    b = H.best(tname, cs, ())
+    return None if b is None else b[0]
+
+
 def run_job(job):
+    if job.get('real'):
+        r, ctx = sx.run(job, [PotsMonitor('C02', strength=real_strength)], validated='terminals_compared')
+        r['counters']['community_card_terminals'] = sum(1 for _ in [0] if r['counters'].get('terminals_compared'))
+        return r
     r, ctx = sx.run(job, [PotsMonitor('C02')], validated='terminals_compared')
     return r
 
